@@ -131,7 +131,12 @@ def run(F, chk):
             if t.get("fn") == WRITE:
                 return [((1,), None)]
             return None
+
+        def view(self, eng, body):
+            import inline      # private helpers of shut_down_sessions (the ack, the progress report, ..) are part of it
+            return inline.inlined(F, body, keep_pred=lambda fn: fn == WRITE, depth=2, budget=400)
     e = Engine(F, S())
+    sd = e.spec.view(e, sd)
     res = e.explore(sd, None)
     by_ret = {}
     for (vec, rv) in res:
@@ -143,6 +148,8 @@ def run(F, chk):
         re_.violation("%s|ack on completion" % sd.path, sd.where(), "write_message count by return value: %s (want true->{1}, false->{0})" % {k: sorted(v) for k, v in by_ret.items()})
     # the id written comes from shutting_down.take(); nobody else takes it
     takers = [(b.path, c) for (b, bi, c) in lib.field_mut_calls(F, SERVER, "shutting_down") if c.endswith("::take")]
+    folded, _ = lib.fold_private_writers(F, {p: {"take"} for p, _ in takers}, lambda fn: fn == sd.path)
+    takers = [(p, "take") for p in folded]
     if [p for p, c in takers if p != sd.path]:
         re_.violation("Server.shutting_down takers", "", "shutting_down is taken outside shut_down_sessions: %s" % takers)
     elif takers:
@@ -225,6 +232,17 @@ def fd_order_rule(F, chk):
             cls |= {f for a, f in rb.slice_back([l])["fields"] if a == LC}
         if len(cls) == 1:
             order_r.append(cls.pop())
+    if set(order_r) != set(classes):
+        # the other idiom: one FD iterator consumed class by class: `addresses.zip(fds)`; the class order is the order of
+        # the zip calls whose address side was parsed from exactly one list of the manifest
+        order_r = []
+        zips = [(bi, t) for bi, t in rb.calls() if callee_of(t).endswith("Iterator::zip") or (t.get("fn") or "").endswith("Iterator::zip")]
+        for bi, t in sorted(zips, key=lambda x: len(dom_r.get(x[0], ()))):
+            per_arg = [{f for ad, f in guards.slice_of_operand(rb, a)["fields"] if ad == LC} for a in t["args"]]
+            single = [c for c in per_arg if len(c) == 1]      # the address side; the FD side depends on every count
+            if len(single) == 1:
+                order_r.append(next(iter(single[0])))
+        order_r = [f for i, f in enumerate(order_r) if i == 0 or f != order_r[i - 1]]
     key = "FD array class order"
     if not r.require(set(order_s) == set(classes) and set(order_r) == set(classes),
                      "could not recover the class order (sender %s, receiver %s, classes %s)" % (order_s, order_r, classes)):
